@@ -25,7 +25,7 @@ REACH = {'logic_sim.m8': ('logic_sim.py', 184, 260), 'wave_sim._wave_eval': ('wa
 
 
 def plan(tier, seed):
-    n = 100 if tier == 'quick' else 2000
+    n = 400 if tier == 'quick' else 8000
     return [{'n': n} for _ in range(16)]
 
 
